@@ -272,7 +272,20 @@ class QvmCode(BaseCode):
         self._data[label].extend(data)
 
     def get_data_label_index(self, label):
-        return list(self._data.keys()).index(label)
+        keys = list(self._data.keys())
+        if label in keys:
+            return keys.index(label)
+
+        # The label carries no DATA of its own: RESTORE continues with
+        # the first DATA statement after it, or past the last item if
+        # there is none.
+        targets = self.compilation.data_label_targets
+        if label not in targets:
+            return len(keys)
+        target = targets[label]
+        if target is None:
+            target = '_toplevel_data'
+        return keys.index(target)
 
     def add_user_type(self, type_block):
         self._user_types[type_block.name] = type_block
